@@ -116,6 +116,21 @@ CLAIMED = {
         "versions are outside the model) and checked against the library on random versions each run.",
    tech="Coq proof (loop invariant by rev_ind for an abstract order, instantiated; structural induction on trees) + differential correspondence",
    ref="6 C10"),
+ "C11": dict(
+   text="Machine-checked theorems over the statement-level model of HTMLDocument._gen_html_tag_tree/_hoist_head_content "
+        "(repaired code) built on the tree, tagify, attribute and dependency models: the result is one html element "
+        "with one head (the first user head, or a new one) and, in the fragment/body cases, exactly [head; body]; the "
+        "head's children are meta charset, the user's head content in order, the listing of the resolved dependencies "
+        "(absent when there are none) and each resolved dependency's markup once in resolved order; everything else is "
+        "the tagified content, whose rendering shows no dependency markup (C07); the rendering is the doctype line plus "
+        "the ordinary rendering; the returned list is the resolved list (for dependency-free head payloads). Tied to "
+        "the code by differential execution over the three construction cases, head positions, dependency placements, "
+        "attribute arguments, lib_prefix/include_version, with an html.parser-based statement oracle.",
+   note=TB + "A dependency's markup is a parameter of the model (supplied from the real as_html_tags; URLs are C12's subject). "
+        "Known finding F7 (dependency nested in another dependency's head payload is reported but neither listed nor "
+        "hoisted) is outside the model's type and is reported as KNOWN-FINDING by the oracle.",
+   tech="Coq proof (composition of the tagify/resolve/attrs/render theorems over the document construction) + differential correspondence + html.parser oracle",
+   ref="6 C11"),
  "C12": dict(
    text="Machine-checked theorems over models of urllib.parse.quote/unquote (UTF-8, %XX), posixpath.join, "
         "source_path_map/as_dict URL construction and copy_to on an abstract filesystem: unquote(quote(p)) = p for "
@@ -132,6 +147,33 @@ CLAIMED = {
         "names/versions/libdir (outside the statement's quantifier; recorded in DESIGN.md).",
    tech="Coq proof (byte-level codecs, path algebra, finite-map filesystem characterisation) + differential correspondence on real directories",
    ref="6 C12"),
+ "C13": dict(
+   text="Machine-checked theorems over models of the neutralisation literal (regenerated from /repo), json.dumps/loads "
+        "string literals (ensure_ascii escapes, surrogate pairs), the extraction regex (as repeated first-occurrence "
+        "search) and first-occurrence replace: for EVERY string the neutralised text contains no </script in any letter "
+        "case (indeed no </ at all); decode(neutralise(encode s)) = s for every string of scalar values; extraction of "
+        "any interleaving of serialised payloads and surrounding text returns exactly the surrounding text and the "
+        "first occurrences in order; only the first placeholder occurrence is replaced. Tied to the code by "
+        "differential execution with hostile field strings, html.parser/json.loads reconstruction oracles, and the "
+        "JSON-mode -> HTMLTextDocument pipeline compared with direct HTMLDocument rendering.",
+   note=TB + "PARTIAL: object-level JSON, the re engine, HTMLDependency(**args) and the head-markup equivalence (T5) are trusted "
+        "and only differentially checked. Finding F3 (upper-case </SCRIPT> not neutralised) was repaired in /repo "
+        "(fix: dfbc841); the theorem is stated over the regenerated literals, so reverting the fix breaks it.",
+   tech="Coq proof (string search/replace algebra, JSON string codec incl. surrogates by lia) over translator-regenerated literals + differential correspondence",
+   ref="6 C13"),
+ "C14": dict(
+   text="Machine-checked theorems over the statement-level model of flatten/_tagchilds_to_tagnodes and every TagList "
+        "operation incl. the inherited ones (state = the raw Python list): normalisation equals the declarative "
+        "depth-first flattening; each operation (construct, append, extend, insert with clamped index, +, reflected +, "
+        "+=, slicing, repetition) equals its declarative description; for EVERY operation history the stored elements "
+        "are valid nodes; an operation that raises leaves the list unchanged; is_tag_child accepts every value the "
+        "operations accept; is_tag_node holds of every stored element. Tied to the code by differential execution of "
+        "random histories with nested/invalid arguments after every step.",
+   note=TB + "Two genuine defects found by this check were repaired in /repo (fix: 8468800 += bypassed normalisation; fix: "
+        "e14f4b1 is_tag_child(int)); the model's two repair flags are checked against the code on every run. Item "
+        "assignment (tl[i] = x) is inherited and unnormalised but is not in the statement's operation list.",
+   tech="Coq proof (nested induction over argument values, induction over operation histories) + differential correspondence",
+   ref="6 C14"),
  "C15": dict(
    text="Machine-checked theorems over the statement-level model of TagAttrDict (name/value normalisation, per-call "
         "accumulation, merge with the str/HTML + rules, dict.update), Tag.__init__ argument splitting and "
@@ -172,6 +214,18 @@ CLAIMED = {
         "A tag cannot be re-entered after its block exited (the statement is silent; model follows the code).",
    tech="Coq proof (structural induction over nested programs, refinement to a lexical spec) + differential correspondence",
    ref="6 C17"),
+ "C18": dict(
+   text="Machine-checked theorems over the model of head_content for an arbitrary content hash H: the name is a function "
+        "of the rendered content only; equal rendered content occupies one entry after resolution; under the stated "
+        "premise that H is injective, different rendered content gives different names and all such dependencies are "
+        "kept, in order; content differing only in metadata nodes has the same name. The property itself (same bytes "
+        "in every process, any hash seed, any history) is OBSERVED: a battery is rendered in 8 (thorough 64) "
+        "subprocesses with distinct PYTHONHASHSEED values and shuffled orders and every digest, order and name must "
+        "agree with each other, with the in-process result and with the model.",
+   note=TB + "PARTIAL by nature: process-level determinism is observed, not proved; SHA-1 is uninterpreted and its injectivity "
+        "is a premise of the theorems (not an axiom); history independence in Coq awaits the heap layer (C08).",
+   tech="Coq proof (over an abstract hash, using the C07/C10 theorems) + cross-process differential battery",
+   ref="6 C18"),
  "C19": dict(
    text="Finite theorems decided by kernel computation over tables regenerated from tags.py, svg.py, __init__.py "
         "and scripts/generate_tags.py on every run (all 113+66 wrappers have the exact pass-through shape, own "
